@@ -85,6 +85,15 @@ def r_C17eval(root):
     k, _ = call(repo, "remove_model", anon1)
     allm = table(repo.get(".all_models"))
     rep("C18.j", "a model without file name is removed too", k == "ret" and not any(m_ is anon1 for m_ in (allm or {"x": anon1}).values()) and any(m_ is anon2 for m_ in (allm or {}).values()), "after remove_model(<string-loaded model>) the model is %s in all_models (documented: removed - a failed load of a model given as a string must not stay cached and marked as under construction)" % ("still" if any(m_ is anon1 for m_ in (allm or {}).values()) else "no longer"), witness="model_from_str with an unresolvable reference and global_repository=True, then the corrected text")
+    # a root object of a user class whose collected attributes are not applied yet answers _tx_filename with the class-level value (the grammar file)
+    parked = HS({".kind": "model", "._tx_filename": "/g/grammar.tx"})
+    allm_obj = repo.get(".all_models")
+    if table(allm_obj) is None: raise AnalysisError("GlobalModelRepository.all_models: no filename_to_model table")
+    else:
+        allm_obj[".filename_to_model"]["/m/parked.mdl"] = parked
+        k, _ = call(repo, "remove_model", parked)
+        allm = table(repo.get(".all_models"))
+        rep("C18.j", "a model whose _tx_filename does not name its entry is removed too", k == "ret" and not any(m_ is parked for m_ in (allm or {"x": parked}).values()), "after remove_model(<model stored as /m/parked.mdl whose _tx_filename reads /g/grammar.tx>) the model is %s in all_models (documented: entries are found by the stored model object; a root object of a user class whose attributes are still parked reads the class-level _tx_filename)" % ("still" if k != "ret" or any(m_ is parked for m_ in (allm or {}).values()) else "no longer"), witness="grammar from a file, user class for the root rule, global_repository=True, a contained user class whose __init__ raises; then the same file again")
     k, _ = call(repo, "remove_models", [b1, cached])
     allm = table(repo.get(".all_models"))
     rep("C18.j", "remove_models removes every listed model", k == "ret" and not any(m_ is b1 or m_ is cached for m_ in (allm or {"x": b1}).values()), "after remove_models([b, c]) all_models still holds %s" % sorted(k_ for k_, m_ in (allm or {}).items() if m_ is b1 or m_ is cached))
